@@ -26,7 +26,10 @@ func (c *Ctx) allowedSite(f *ssa.Function, allow map[string]bool, callers map[*s
 	if allow[load.FuncName(top)] {
 		return true
 	}
-	if isExported(top) || seen[top] {
+	if isExported(top) || seen[top] || !c.isNewHelper(top) {
+		// only helpers introduced after the tables were written inherit
+		// the ownership of their callers; a function the tables know is
+		// either listed or foreign
 		return false
 	}
 	seen[top] = true
